@@ -74,6 +74,14 @@ fn run_trip(ctx: &Ctx, id: u64, st: &mut Stats) {
     }
     let live = install_program(&mut a, &mut rng, 64);
     a.cycles = 0;
+    // the snapshot may be taken while the CPU sits in HALT: rustzx keeps PC on the HALT then, and the
+    // SNA format has no halted flag, so the file must carry that very PC (the loaded machine simply
+    // executes the HALT again)
+    let halted_save = rng.chance(1, 6);
+    if halted_save {
+        let pc = a.r.pc;
+        a.poke(pc, 0x76);
+    }
     let kind = Prior::random(&mut rng, is128);
     let fl = if is128 { 70908usize } else { 69888 };
     let save_clock = rng.below(fl as u64) as usize;
@@ -89,6 +97,10 @@ fn run_trip(ctx: &Ctx, id: u64, st: &mut Stats) {
 
     // ---- the saving machine
     let mut ma = materialise(&a);
+    if halted_save {
+        ma.cpu().halted = true;
+        *st.by_kind.entry("saved-while-halted".into()).or_insert(0) += 1;
+    }
     ma.set_clock(save_clock);
     let c0 = capture(&mut ma);
     let d0 = diff_capture(&c0, &a, &[]);
